@@ -71,7 +71,7 @@ class Workload:
                 )
             )
         wf = Workflow.create(application="verif", name=self.name, stages=stages, context=dict(self.wf_ctx))
-        if any(s.type == "vsyn" for s in self.stages):
+        if any(s.type in ("vsyn", "vsyn2") for s in self.stages):
             register_builders(world)
             if self.notes == "failpost":
                 world.behaviours[("post", "t")] = {"kind": "terminal"}
@@ -237,6 +237,47 @@ def jump_forward_diamond(times=1):
     )
 
 
+def jump_diamond_loop(times=1, max_jumps=None):
+    """A -> (B1, B2) -> C ; C (a join inside the loop) jumps back to A ; then Z."""
+    wctx = {} if max_jumps is None else {"_max_jumps": max_jumps}
+    mk = lambda r: [("t", {"kind": "ok", "out": _loop_out(r, "A")})]  # noqa: E731
+    return Workload(
+        f"jump_diamond_loop_t{times}_m{max_jumps}",
+        [St("A", tasks=mk("A")), St("B1", ("A",), tasks=mk("B1")), St("B2", ("A",), tasks=mk("B2")),
+         St("C", ("B1", "B2"), tasks=[("t", {"kind": "jump", "target": "A", "times": times, "out": _loop_out("C", "A")})]),
+         St("Z", ("C",), tasks=mk("Z"))],
+        wf_ctx=wctx,
+    )
+
+
+def join_fail(join="DISCRIMINATOR", threshold=0, stop=True):
+    """A -> (B fails, C ok) -> D(join) -> E.  stop=True: B has failPipeline=False (ends STOPPED, others continue)."""
+    bctx = {"failPipeline": False} if stop else {}
+    return Workload(
+        f"join_fail_{join.lower()}_{'stop' if stop else 'term'}",
+        [St("A"), St("B", ("A",), tasks=[("t", {"kind": "terminal"})], ctx=bctx), St("C", ("A",)),
+         St("D", ("B", "C"), join=join, threshold=threshold), St("E", ("D",))],
+        klass="racy",
+    )
+
+
+def jump_forward_multitask(times=1):
+    """A (two tasks: t1 jumps forward to C, t2 never runs) -> B -> C."""
+    mk = lambda r: [("t", {"kind": "ok", "out": std_out(r)})]  # noqa: E731
+    return Workload(
+        f"jump_forward_mt_t{times}",
+        [St("A", tasks=[("t1", {"kind": "jump", "target": "C", "times": times, "out": std_out("A")}),
+                        ("t2", {"kind": "ok", "out": {"x2": ("const", 2)}})]),
+         St("B", ("A",), tasks=mk("B")), St("C", ("B",), tasks=mk("C"))],
+    )
+
+
+def multitask_fail(pos=0):
+    """One stage with three tasks of which task `pos` fails terminally; then B."""
+    t = [(f"t{i}", {"kind": "terminal"} if i == pos else {"kind": "ok", "out": {f"x{i}": ("const", i)}}) for i in range(3)]
+    return Workload(f"multitask_fail{pos}", [St("A", tasks=t), St("B", ("A",))])
+
+
 def first_of():
     return Workload(
         "first_of", [St("A"), St("B", ("A",)), St("C", ("A",)), St("D", ("B", "C"), join="DISCRIMINATOR"), St("E", ("D",))],
@@ -294,6 +335,11 @@ def synthetic(fail_post=False):
     )
 
 
+def synthetic2():
+    """A -> S(type vsyn2: two PARALLEL before-stages pre1, pre2, own task) -> Z."""
+    return Workload("synthetic2", [St("A"), St("S", ("A",), type="vsyn2"), St("Z", ("S",))])
+
+
 def register_builders(world):
     from stabilize.models.stage import StageExecution as SE, SyntheticStageOwner
     from stabilize.models.task import TaskExecution as TE
@@ -315,7 +361,22 @@ def register_builders(world):
         def after_stages(self, stage, graph):
             graph.add(self._mk(stage, "post", SyntheticStageOwner.STAGE_AFTER))
 
+    class VSyn2Builder(VSynBuilder):
+        @property
+        def type(self):
+            return "vsyn2"
+
+        def before_stages(self, stage, graph):
+            graph.add(self._mk(stage, "pre1", SyntheticStageOwner.STAGE_BEFORE))
+            graph.add(self._mk(stage, "pre2", SyntheticStageOwner.STAGE_BEFORE))
+
+        def after_stages(self, stage, graph):
+            pass
+
     get_default_factory().register(VSynBuilder())
+    get_default_factory().register(VSyn2Builder())
+    for n in ("pre1", "pre2"):
+        world.behaviours.setdefault((n, "t"), {"kind": "ok", "out": {f"o_{n}": ("name",)}})
     world.behaviours.setdefault(("pre", "t"), {"kind": "ok", "out": {"o_pre": ("name",)}})
     world.behaviours.setdefault(("post", "t"), {"kind": "ok", "out": {"o_post": ("name",)}})
 
